@@ -34,10 +34,10 @@ def model_generr_class(sx):
     return kind
 
 
-def run_core(cases, shards=8, fuel=None, timeout_ms=10000):
+def run_core(cases, shards=8, fuel=None, timeout_ms=10000, spec=False, spec_fuel=300):
     """cases: list of dict(src=str(latin-1), texts=[str]).  Returns (go_results, disagreements, stats).
     Each disagreement: dict(layer, case index, text index or None, go=..., model=...)."""
-    go_cases = [{"op": "e2e", "src_hex": vh.hexs(c["src"]), "texts_hex": [vh.hexs(t) for t in c["texts"]]} for c in cases]
+    go_cases = [{"op": "e2e", "src_hex": vh.hexs(c["src"]), "texts_hex": [vh.hexs(t) for t in c["texts"]], "percmd": bool(spec)} for c in cases]
     gres = vh.run_cases(go_cases, shards=shards, timeout_ms=timeout_ms)
     # cases on which the implementation hung: compile only, to obtain the AST for the model
     hung = [i for i, g in enumerate(gres) if g.get("hang") or g.get("oom") or g.get("fatal") or g.get("missing")]
@@ -55,6 +55,8 @@ def run_core(cases, shards=8, fuel=None, timeout_ms=10000):
         lines.append("(m%d run %s %s%s)" % (i, g["ast"], texts, extra))
         if "bc" in g:
             lines.append("(b%d runbc %s %s%s)" % (i, model.canon_loop_ids(g["bc"]), texts, extra))
+            if spec and "named" not in c["src"]:
+                lines.append("(s%d spec %s %s %d)" % (i, g["ast"], texts, spec_fuel))
     mres = model.run_model(lines, shards=shards)
     dis = []
     stats = {"cases": len(cases), "go_lexparse_err": 0, "go_gen_err": 0, "go_panic": 0, "go_hang": 0, "compiled": 0,
@@ -160,4 +162,65 @@ def run_core(cases, shards=8, fuel=None, timeout_ms=10000):
                         dis.append({"layer": "CORR-VM", "case": i, "text": ti, "go": go_m, "model": bs})
                     else:
                         stats["vm_agree"] += 1
+    if spec:
+        spec_compare(cases, gres, mres, dis, stats)
     return gres, dis, stats
+
+
+def window_of(cmd_ast):
+    """(all, skip, take, last) of a find/replace command's AST sexp (python list)"""
+    return cmd_ast[1] == "t", int(cmd_ast[2]), int(cmd_ast[3]), int(cmd_ast[4])
+
+
+def apply_window(A, w):
+    all_, skip, take, last = w
+    if all_:
+        r = A[skip:]
+        if last != 0:
+            r = r[max(0, len(r) - last):]
+        return r
+    return A[skip:skip + take]
+
+
+def spec_compare(cases, gres, mres, dis, stats):
+    """implementation vs the specification (Spec/FindSpec.v), command by command: spans and variables"""
+    stats.setdefault("spec_agree", 0)
+    stats.setdefault("spec_nofuel", 0)
+    stats.setdefault("concat_agree", 0)
+    for i, (c, g) in enumerate(zip(cases, gres)):
+        sk = "s%d" % i
+        if sk not in mres or "percmd_list" not in g:
+            continue
+        sp = model.parse_sexp(mres[sk])
+        if sp[0] != "ok":
+            continue
+        ast = model.parse_sexp(g["ast"])
+        for ti, t in enumerate(c["texts"]):
+            if ti >= len(g["percmd_list"]):
+                break
+            per = g["percmd_list"][ti]
+            # C13: the whole run is the concatenation of the commands run alone
+            whole = model.parse_sexp(g["matches_list"][ti])
+            cat = []
+            for pc in per:
+                cat += model.parse_sexp(pc)
+            if cat != whole:
+                dis.append({"layer": "IMPL-CONCAT", "case": i, "text": ti, "go": g["matches_list"][ti], "model": model.to_sexp(cat)})
+            else:
+                stats["concat_agree"] += 1
+            for ci, (cmd, pc) in enumerate(zip(ast, per)):
+                if cmd[0] not in ("find", "replace"):
+                    continue
+                so = sp[1][ti][ci]
+                if so[0] != "spans":
+                    stats["spec_nofuel"] += 1
+                    continue
+                spans = apply_window(so[1:], window_of(cmd))
+                gm = model.parse_sexp(pc)
+                tb = t.encode("latin-1")
+                got = [[m[2], m[3], m[8], m[10]] for m in gm]
+                exp = [[s_[0], s_[1], "h" + tb[int(s_[0]):int(s_[1])].hex(), s_[2]] for s_ in spans]
+                if got != exp:
+                    dis.append({"layer": "SPEC-E2E", "case": i, "text": ti, "cmd": ci, "go": model.to_sexp(got), "model": model.to_sexp(exp)})
+                else:
+                    stats["spec_agree"] += 1
